@@ -564,7 +564,6 @@ const RECORDED: &[&str] = &[
     "unsized-array-unbound",
     "nested-array-unbound",
     "struct-resource-unbound",
-    "numthreads-ambiguous",
 ];
 
 fn show_meta(m: &rssl::ir::export::PipelineDescription) -> String {
@@ -1011,6 +1010,8 @@ const FRONT_ERRORS: &[(&str, &str)] = &[
     ("property declared multiple times", "PipelinePropertyDuplicate"),
     ("graphics pipeline state may only be applied to a graphics pipeline", "PipelinePropertyRequiresGraphicsPipeline"),
     ("static sampler has unexpected binding index", "StaticSamplerUnexpectedBindingIndex"),
+    // since fix 0f5be73: a second attribute of a kind the function already has (two `[numthreads]`)
+    ("function attribute 'numthreads' is given more than once", "FunctionAttributeDuplicate"),
 ];
 
 fn run_case(case: &Case, tgt: Tgt, mode: &Mode, out: &mut Out, hist: &mut Hist) {
@@ -1060,6 +1061,14 @@ fn run_case(case: &Case, tgt: Tgt, mode: &Mode, out: &mut Out, hist: &mut Hist) 
             } else if e.contains("metal generate: UnsupportedBindGroupIndex(") {
                 // a bind group beyond the argument buffers Metal provides is refused cleanly (predicted by the model)
                 "err:UnsupportedBindGroupIndex".to_string()
+            } else if e.contains("generate: UnsupportedObjectType") {
+                // a global of an object kind without a descriptor type (`RayDesc g;`): refused by `analyse_bindings` of
+                // either exporter (predicted by the model; before fix 774c0b4 DirectX panicked in the allocator instead)
+                "err:UnsupportedObjectType".to_string()
+            } else if e.contains("metal generate: UnboundGlobal") {
+                // since fix 2ba03a4: a stage entry point that reaches an extern global without a place in an argument
+                // buffer (2-D resource array, struct holding resources) is refused cleanly (predicted by the model)
+                "err:UnboundGlobal".to_string()
             } else if let Some(c) = known {
                 format!("err:{}", c)
             } else {
@@ -1067,7 +1076,7 @@ fn run_case(case: &Case, tgt: Tgt, mode: &Mode, out: &mut Out, hist: &mut Hist) 
             };
             hist.add("outcome=error");
             hist.add(&format!("error={}", obs.chars().take(60).collect::<String>()));
-            let skip = !(obs == "err:none" || obs == "err:unknown" || obs == "err:UnsupportedBindGroupIndex" || known.is_some());
+            let skip = !(obs == "err:none" || obs == "err:unknown" || obs == "err:UnsupportedBindGroupIndex" || obs == "err:UnboundGlobal" || obs == "err:UnsupportedObjectType" || known.is_some());
             out.case(&req, &obs, if skip { "SKIP:compile error" } else { "ok" });
         }
         Raw::Panic(p) => {
@@ -1075,7 +1084,9 @@ fn run_case(case: &Case, tgt: Tgt, mode: &Mode, out: &mut Out, hist: &mut Hist) 
             // a panic is a C08 matter; it is reported here only as skipped input -- except a panic of the pipeline
             // driver itself (src/compile.rs): the model, which follows that file, predicts an answer for the request,
             // so the case is compared (and disagrees)
-            let driver = p.contains("src/compile.rs");
+            // ... or of Metal's `generate_pipeline` (msl/src/generator/pipeline.rs), whose binding analysis and entry
+            // arguments the model follows too (fix 2ba03a4 turned its `unwrap()` on an unbound global into `UnboundGlobal`)
+            let driver = p.contains("src/compile.rs") || p.contains("msl/src/generator/pipeline.rs");
             out.case(&req, &format!("panic:{}", p), if driver { "ok" } else { "SKIP:panic (C08)" });
         }
         Raw::Ok(ps) => {
@@ -1186,7 +1197,7 @@ fn mutate(case: &mut Case, rng: &mut Rng, hist: &mut Hist) {
         }
     }
     // a two-dimensional resource array / a global of a struct type that holds resources (reached by an entry point in
-    // half of the cases only: Metal panics when it is)
+    // half of the cases only: Metal refuses the pipeline with `UnboundGlobal` when it is)
     if !case.res.is_empty() && rng.chance(1, 10) {
         let k = rng.below(case.res.len() as u64) as usize;
         let r = &mut case.res[k];
@@ -1204,9 +1215,18 @@ fn mutate(case: &mut Case, rng: &mut Rng, hist: &mut Hist) {
             }
         }
     }
+    // a global of an object type that is no resource (never bound; every target refuses the module)
+    if !case.res.is_empty() && rng.chance(1, 40) {
+        let k = rng.below(case.res.len() as u64) as usize;
+        let r = &mut case.res[k];
+        if r.kind.starts_with("Texture") && !r.bl && !r.stat && r.group.is_none() && !matches!(r.arr, ArrLen::Unsized | ArrLen::Nested(..)) {
+            r.kind = "RayDesc".to_string();
+            hist.add("variant=non-resource-object-global");
+        }
+    }
     // how the bind group is written, explicit language-level indices, namespaces, sampler property sets
     for r in case.res.iter_mut() {
-        let annotatable = r.kind != "struct" && !matches!(r.arr, ArrLen::Nested(..));
+        let annotatable = r.kind != "struct" && r.kind != "RayDesc" && !matches!(r.arr, ArrLen::Nested(..));
         if r.group.is_some() && rng.chance(1, 2) {
             r.gspell = *rng.pick(&[GSpell::Reg, GSpell::Vk, GSpell::Over]);
             // vk::binding carries an index, which a static sampler must not have
